@@ -179,7 +179,8 @@ Definition c10_holds (epsd epsc : Q) (strict : bool) (ddof : nat) (tol : Q) (lab
 Definition OQofD (d : option D) : option Q := match d with None => None | Some x => Some (QofD x) end.
 
 (** one BlockMean.filter case; [obs = None]: ValueError; [unchanged]: the
-    caller's arrays are byte-identical after the call *)
+    caller's arrays are byte-identical after the call and the instance's
+    constructor parameters (get_params()) are what they were *)
 Definition c10_case (epsd epsc : Q) (ddof : nat) (tol : D) (labels : list Z) (coords data : list (list D))
     (weights : option (list (list D))) (centres : list D * list D) (center drop uncertainty unchanged : bool)
     (obs : option (list (list D) * list (list D) * list (list D))) : verdict :=
